@@ -5,3 +5,24 @@ check(
     "Trusts CPython float arithmetic and the error-scale analysis (K=16 x 2^-53 x magnitude of offsets and scaled value); coefficients are read observationally through the conversion functions.",
     "4/C01",
 )
+check(
+    "C02",
+    "runtime monitoring: differential route monitor - every public conversion route observed on the real objects and compared element-wise with the database's float conversion",
+    "Held for every category x (default unit <-> every unit) + random pairs (thorough: all pairs up to 40x40 per category) x ~40 routes x container kinds and lengths; category/type/unit of re-expressed objects and own-unit identity (simple and derived) checked on the returned objects.",
+    "Reference is UnitDatabase.Convert on floats observed in the same run (C01 vouches for it); tolerance is the running float error scale; routes not in the list are not covered.",
+    "4/C02",
+)
+check(
+    "C03",
+    "runtime monitoring: random same-dimension operand pairs executed on real Scalars/Arrays, results compared with an executable dimensional-analysis reference model + metamorphic relations",
+    "Held on tens of thousands of generated operand pairs (derived, mixed units/categories, offset units at exponents != 1, CreateDerived leaves, 9 container combinations) for a+b, a-b, b+a, b-a, (a+b)-b and UnitDatabase.Sum/Subtract.",
+    "Model: value x prod(slope^exp) in exact rationals; slopes read observationally; relative tolerance 1e-11 x operations; offsets only at exponent 1 of simple quantities.",
+    "4/C03",
+)
+check(
+    "C04",
+    "runtime monitoring: random expression trees executed on real Scalars/Arrays/Quantities and compared node by node with an executable dimensional-analysis reference model + metamorphic relations",
+    "Held at every operator node of tens of thousands of random trees (* / // **n, depth <= 4, Scalars and Arrays in three container kinds): exponents per quantity type, zero exponents absent, base magnitude, flooring; a*b~b*a, (a*b)/b~a, a/a dimensionless, Quantity-level operators agree.",
+    "Scale-only units, non-zero finite values; model in exact rationals with relative tolerance 1e-11 x (2 + operations).",
+    "4/C04",
+)
